@@ -50,6 +50,9 @@ def run(ck: Checker, prog: Program, tier: str):
     ck.guard(_peer, ck, prog)
     ck.guard(_common, ck, prog)
     ck.guard(_argument_purity, ck, prog)
+    from . import c04
+    with ck.borrow(c04, "C07.R4+"):
+        ck.guard(c04._orientation_carried, ck, prog)
     ck.guard(_check_npts_rule, ck, prog)
     ck.guard(_read_single, ck, prog)
     ck.guard(_read, ck, prog)
